@@ -1,5 +1,5 @@
 import NetVerif.Model.SendWin
-import NetVerif.Proofs.Lemmas.Flow
+import NetVerif.Proofs.Lemmas.SendWinFlow
 import NetVerif.Proofs.Lemmas.SendWin
 import NetVerif.Proofs.Lemmas.SendWinRefine
 import NetVerif.Proofs.Lemmas.SendWinGen
@@ -22,7 +22,7 @@ sent when a window reopens.  (C09, the client side, reuses everything here with 
         maxFrame)` bytes), and `Consume` refuses only when that minimum is ≤ 0.
 -/
 namespace NetVerif.Proofs.C08
-open NetVerif.Model.SendWin NetVerif.Model.Flow NetVerif.Proofs.SendWin NetVerif.Proofs.Flow
+open NetVerif.Model.SendWin NetVerif.Model.Flow NetVerif.Proofs.SendWin NetVerif.Proofs.SendWinFlow
 
 /-! ### (i) the monitor decides the property -/
 
